@@ -409,7 +409,15 @@ class CallMixin(ExprMixin):
             for s, o in self.ev(e.args[0], st):
                 names = []
                 cl = e.args[1]
-                for x in (cl.elts if isinstance(cl, ast.Tuple) else [cl]):
+
+                def alts(x):
+                    # isinstance(o, (A, B)) and the PEP 604 form isinstance(o, A | B)
+                    if isinstance(x, ast.Tuple):
+                        return [y for el in x.elts for y in alts(el)]
+                    if isinstance(x, ast.BinOp) and isinstance(x.op, ast.BitOr):
+                        return alts(x.left) + alts(x.right)
+                    return [x]
+                for x in alts(cl):
                     names.append(ast.unparse(x).split(".")[-1])
                 if o.ty == EXC:
                     res.append((s, V(BOOL, z3.Or([self.exc_is(o.t, nm) for nm in names]))))
